@@ -16,7 +16,7 @@ Qed.
 
 Lemma pend_len_recv_frame f s : (length (pend_start (fst (recv_frame f s))) <= length (pend_start s))%nat.
 Proof.
-  hm_unfold. destruct f as [c|m]; [|destruct m]; p_split; try lia; try (cbn [length]; lia);
+  hm_unfold. destruct f as [c|m]; [|destruct m]; p_split; unfold close_pend; p_split; try lia; try (cbn [length]; lia);
     try apply dict_del_length.
 Qed.
 
@@ -29,7 +29,8 @@ Qed.
 Lemma pend_len_step_o o s : in_term s = true -> not_rx o = true ->
   (length (pend_start (step s o)) <= length (pend_start s))%nat.
 Proof.
-  intros Ht Ho. destruct o; try discriminate Ho; st_unfold; rewrite ?Ht; p_split; try lia;
+  intros Ht Ho. destruct o; try discriminate Ho; st_unfold; rewrite ?Ht; p_split; unfold close_pend; p_split; try lia;
+    try (cbn [length]; lia);
     try (match goal with E : pend_start s = _ |- _ => rewrite E end; cbn [length]; lia).
 Qed.
 
